@@ -95,7 +95,7 @@ func (s1 jsonSet) diff(
 		}
 		return append(d, e)
 	}
-	if strategy == mergePatchStrategy && !s1.Equals(n) {
+	if strategy == mergePatchStrategy && !s1.Equals(n, options...) {
 		e := DiffElement{
 			Metadata: Metadata{
 				Merge: true,
